@@ -144,6 +144,10 @@ def run_property(pid, tier, seed):
     vio_lines = []
     seen_groups = set()
     for o in violations:
+        grp = re.sub(r"#p[\d.]+$", "", o.id)
+        if grp in seen_groups:      # one VIOLATION line per (function, clause); other failing paths are in the evidence
+            continue
+        seen_groups.add(grp)
         rep = None
         if o.replay is not None:
             try:
